@@ -107,6 +107,12 @@ SHAPES = {
     'esp_two_integ': ('esp2', [(1, True), (1, True), (3, False), (3, False), (5, False)]),
     'ah': ('ah', [(3, False), (5, False)]),
     'esp_extra': ('esp', [(1, True), (3, False), (5, False), (4, False)]),
+    'esp_no_esn': ('esp', [(1, True), (3, False)]),
+    'esp_no_integ': ('esp', [(1, True), (5, False)]),
+    'esp_pfs': ('esp_pfs', [(1, True), (3, False), (5, False), (4, False)]),
+    'esp_pfs_no_dh': ('esp_pfs', [(1, True), (3, False), (5, False)]),
+    'ike_missing_dh': ('ike', [(1, True), (3, False), (2, False)]),
+    'ike_missing_prf': ('ike', [(1, True), (3, False), (4, False)]),
 }
 
 
@@ -119,6 +125,8 @@ def local_policy(kind):
         return P(1, P.Protocol.IKE, b'', [T(1, 12, 256), T(1, 12, 128), T(3, 14), T(3, 12), T(2, 7), T(2, 5), T(4, 20), T(4, 19)])
     if kind == 'esp':
         return P(1, P.Protocol.ESP, b'', [T(1, 12, 256), T(3, 12), T(5, 0)])
+    if kind == 'esp_pfs':
+        return P(1, P.Protocol.ESP, b'', [T(1, 12, 256), T(3, 12), T(5, 0), T(4, 19)])
     if kind == 'esp2':
         return P(1, P.Protocol.ESP, b'', [T(1, 12, 256), T(1, 12, 128), T(3, 12), T(3, 2), T(5, 0)])
     if kind == 'ah':
@@ -219,6 +227,21 @@ def deliver_object_ctl(ctl, E, msg, my_addr, peer_addr):
         m.Message.parse = real
 
 
+def one_of_each(eng, resp_prop, offer, label):
+    """slot types are concrete: the accepted suite must name every transform type of the offer and no other type, and one transform per type
+    (the same transform listed twice is tolerated: it still names one algorithm)"""
+    from symx import core
+    want = sorted({int(t.type) for t in offer.transforms})
+    have = sorted({int(t.type) for t in resp_prop.transforms})
+    if have != want:
+        return f'{label} accepted a response proposal with transform types {have}; the offer requires exactly one of each of {want}'
+    for tt in want:
+        same = [t for t in resp_prop.transforms if int(t.type) == tt]
+        for x in same[1:]:
+            eng.prove(t_eq(same[0], x), f'{label} accepted a response proposal with two different transforms of type {tt}')
+    return None
+
+
 def stop_at(obj, name, what):
     def stop(*a, **k):
         raise Reached(what, (a, k))
@@ -245,12 +268,13 @@ def h_init_response(shape):
     payloads = [m.PayloadSA([resp_prop])] + [x for x in real_res.payloads if x.type != m.Payload.Type.SA]
     msg = m.Message(spi_i=a.my_spi, spi_r=b'RESPSPI!', major=2, minor=0, exchange_type=34, is_response=True, can_use_higher_version=False,
                     is_initiator=False, message_id=0, payloads=payloads, encrypted_payloads=[])
-    stop_at(a, 'generate_ike_sa_key_material', 'keys')
-    try:
-        r = deliver_object(a, p.A, msg)
-    except Reached:
+    r = deliver_object(a, p.A, msg)
+    if a.state == S.AUTH_REQ_SENT:
         eng.prove(core.sym_and(*[in_prop(t, offer) for t in resp_prop.transforms]),
                   'the initiator derived keys for a response proposal containing a transform it never offered')
+        bad = one_of_each(eng, resp_prop, offer, 'the IKE_SA initiator')
+        if bad:
+            return {'class': ['init_response'], 'violation': bad}
         return ['init_response', 'accepted']
     if a.state not in (S.DELETED,):
         return {'class': ['init_response'], 'violation': f'response neither accepted nor refused (state {a.state.name})'}
@@ -268,7 +292,7 @@ def h_child_response(shape):
     m = MODS['message']
     S = MODS['ikesa'].IkeSa.State
     kind = SHAPES[shape][0]
-    kw = dict(ipsec_proto='ah') if kind == 'ah' else {}
+    kw = dict(ipsec_proto='ah') if kind == 'ah' else (dict(child_dh=('ecp256',)) if kind == 'esp_pfs' else {})
     p = world.Pair(**kw)
     if kind == 'esp2':
         for who in ('alice', 'bob'):
@@ -286,16 +310,17 @@ def h_child_response(shape):
     msg = m.Message(spi_i=a.spi_i, spi_r=a.spi_r, major=2, minor=0, exchange_type=36, is_response=True, can_use_higher_version=False,
                     is_initiator=False, message_id=a.my_msg_id, payloads=[], encrypted_payloads=enc)
     msg.is_protected = True
-    stop_at(a, 'generate_child_sa_key_material', 'keys')
     n_sad = len(p.A.kernel.log)
-    try:
-        r = deliver_object(a, p.A, msg)
-    except Reached:
+    n_kids = len(a.child_sas)
+    r = deliver_object(a, p.A, msg)
+    installed = any(x['op'] == 'NEWSA' for x in p.A.kernel.log[n_sad:])
+    if installed or len(a.child_sas) > n_kids:
         eng.prove(core.sym_and(*[in_prop(t, offer) for t in resp_prop.transforms]),
-                  'the initiator derived CHILD_SA keys for a response proposal containing a transform it never offered')
+                  'the initiator installed a CHILD_SA for a response proposal containing a transform it never offered')
+        bad = one_of_each(eng, resp_prop, offer, 'the CHILD_SA initiator')
+        if bad:
+            return {'class': ['child_response'], 'violation': bad}
         return ['child_response', 'accepted']
-    if len(p.A.kernel.log) != n_sad and any(x['op'] == 'NEWSA' for x in p.A.kernel.log[n_sad:]):
-        return {'class': ['child_response'], 'violation': 'an SA was installed although the response proposal was refused'}
     return ['child_response', 'refused', a.state.name]
 
 
@@ -381,6 +406,81 @@ def h_init_request(shape, n_peer):
     return {'class': ['init_request'], 'violation': f'unexpected reply {notes}'}
 
 
+def h_child_request(sit, n_dh):
+    """responder whose CHILD policy lists the groups (ecp384, ecp256) receives a CREATE_CHILD_SA request (new / rekey) offering n_dh ARBITRARY DH
+    groups with a KE payload in an ARBITRARY group"""
+    from symx import core
+    eng = core.engine()
+    m, ik = MODS['message'], MODS['ikesa']
+    S = ik.IkeSa.State
+    T = m.Transform
+    p = world.Pair(child_dh=('ecp256',), child_dh_b=('ecp384', 'ecp256'))
+    req = p.to_state('A', 'NEW_CHILD_REQ_SENT' if sit == 'new' else 'REK_CHILD_REQ_SENT')
+    b = p.b
+    real_req = m.Message.parse(bytes(req), crypto=b.peer_crypto)
+    dh_trs = [sym_transform(eng, f'dh{i}', 4, False) for i in range(n_dh)]
+    offered = [t.id for t in dh_trs]
+    group = eng.sym_int('ke_group', 0, 0xFFFF)
+    enc = []
+    for x in real_req.encrypted_payloads:
+        if x.type == m.Payload.Type.SA:
+            pr = x.proposals[0]
+            trs = [t for t in pr.transforms if t.type != T.Type.DH]
+            trs.extend(dh_trs)
+            enc.append(m.PayloadSA([m.Proposal(pr.num, pr.protocol_id, pr.spi, trs)]))
+        elif x.type == m.Payload.Type.KE:
+            enc.append(m.PayloadKE(group, x.ke_data))
+        else:
+            enc.append(x)
+    msg = m.Message(spi_i=b.spi_i, spi_r=b.spi_r, major=2, minor=0, exchange_type=36, is_response=False, can_use_higher_version=False,
+                    is_initiator=True, message_id=b.peer_msg_id, payloads=[], encrypted_payloads=enc)
+    msg.is_protected = True
+    sent = []
+    real_gen = b.generate_response
+
+    def gen(exchange_type, payloads, *a, **k):
+        sent.append(list(payloads))
+        return real_gen(exchange_type, payloads, *a, **k)
+    b.generate_response = gen
+    real_dh = ik.DiffieHellman
+
+    class StopDH:
+        @classmethod
+        def from_group(cls, g):
+            raise Reached('dh', g)
+    ik.DiffieHellman = StopDH
+    n_log = len(p.B.kernel.log)
+    P = eng.prove
+    # local preference order: ecp384 (20) before ecp256 (19)
+    has20 = core.sym_or(*[g == 20 for g in offered])
+    has19 = core.sym_or(*[g == 19 for g in offered])
+    want = core.sym_ite_int(has20, 20, 19)
+    try:
+        try:
+            r = deliver_object(b, p.B, msg)
+        finally:
+            ik.DiffieHellman = real_dh
+    except Reached as ex:
+        P(core.sym_or(has20, has19), 'Diffie-Hellman started although none of the offered groups is in the local policy')
+        P(core.sym_and(group == want, ex.info == want), 'Diffie-Hellman was started in a group other than the chosen one (first local group that the peer offers)')
+        return ['child_request', 'dh']
+    if any(x['op'] == 'NEWSA' for x in p.B.kernel.log[n_log:]):
+        return {'class': ['child_request'], 'violation': 'an SA was installed although the request was not accepted'}
+    if len(sent) != 1:
+        return {'class': ['child_request'], 'violation': f'{len(sent)} responses generated'}
+    notes = [x for x in sent[0] if x.type == m.Payload.Type.NOTIFY]
+    kinds = [int(x.notification_type) for x in notes]
+    if kinds == [int(m.PayloadNOTIFY.Type.INVALID_KE_PAYLOAD)]:
+        P(core.sym_or(has20, has19), 'INVALID_KE_PAYLOAD although no offered group is acceptable')
+        P(core.sym_and(core.SymBytes.lift(notes[0].notification_data).to_int() == want, len(notes[0].notification_data) == 2, group != want),
+          'INVALID_KE_PAYLOAD does not name the chosen group (the first local group that the peer offers), or the KE group was the chosen one')
+        return ['child_request', 'invalid_ke']
+    if kinds == [int(m.PayloadNOTIFY.Type.NO_PROPOSAL_CHOSEN)]:
+        P(core.sym_not(core.sym_or(has20, has19)), 'NO_PROPOSAL_CHOSEN although an offered group is in the local policy')
+        return ['child_request', 'no_proposal']
+    return {'class': ['child_request'], 'violation': f'unexpected answer: notifications {kinds}'}
+
+
 def h_invalid_ke(sit):
     """initiator receives INVALID_KE_PAYLOAD with an arbitrary suggested group"""
     from symx import core
@@ -443,22 +543,32 @@ def h_invalid_ke(sit):
 def build_instances(tier):
     inst = []
     nat = common.native_of
-    shapes = list(SHAPES)
+    shapes = [x for x in SHAPES if x not in ('esp_no_esn', 'esp_no_integ', 'esp_pfs', 'esp_pfs_no_dh', 'ike_missing_dh', 'ike_missing_prf')]
     for sh in shapes:
         inst.append(Instance(f'intersection {sh}', h_intersection, (sh,), native=nat(h_intersection)))
         big = sh in ('ike_two_encr', 'esp_two_integ', 'ike_two_dh')
         for n in (((1,) if big else (2,)) if tier == 'quick' else ((1, 2) if big else (1, 2, 3))):
             inst.append(Instance(f'select {sh} peers={n}', h_select, (sh, n), native=nat(h_select), engine_kw={'max_wall_s': 1500}))
-    for sh in ('ike_small', 'ike_missing_integ', 'ike_two_dh', 'ike_nokeylen') + (('ike_two_encr',) if tier == 'thorough' else ()):
+    for sh in ('ike_missing_dh', 'ike_missing_prf'):
         inst.append(Instance(f'init_response {sh}', h_init_response, (sh,), native=nat(h_init_response),
                              must_reach=[('refused', lambda o: o == ['init_response', 'refused'])]))
+    for sh in ('ike_small', 'ike_missing_integ', 'ike_two_dh', 'ike_nokeylen') + (('ike_two_encr',) if tier == 'thorough' else ()):
+        inst.append(Instance(f'init_response {sh}', h_init_response, (sh,), native=nat(h_init_response),
+                             must_reach=[('refused', lambda o: o == ['init_response', 'refused'])] +
+                                        ([('accepted', lambda o: o == ['init_response', 'accepted'])] if sh not in ('ike_missing_integ', 'ike_nokeylen') else [])))
         big = sh in ('ike_two_encr', 'ike_two_dh')
         for n in (((1,) if big else (1, 2)) if tier == 'quick' else ((1, 2) if big else (1, 2, 3))):
             inst.append(Instance(f'init_request {sh} peers={n}', h_init_request, (sh, n), native=nat(h_init_request),
                                  engine_kw={'max_wall_s': 1500}))
-    for sh in ('esp', 'esp_two_integ', 'ah', 'esp_extra'):
+    for sh in ('esp', 'esp_two_integ', 'ah', 'esp_extra', 'esp_no_esn', 'esp_no_integ', 'esp_pfs', 'esp_pfs_no_dh'):
         inst.append(Instance(f'child_response {sh}', h_child_response, (sh,), native=nat(h_child_response),
-                             must_reach=[('refused', lambda o: o[:2] == ['child_response', 'refused'])]))
+                             must_reach=[('refused', lambda o: o[:2] == ['child_response', 'refused'])] +
+                                        ([('accepted', lambda o: o == ['child_response', 'accepted'])] if sh in ('esp', 'ah', 'esp_pfs', 'esp_two_integ') else [])))
+    for sit in ('new', 'rekey'):
+        for n_dh in (1, 2):
+            inst.append(Instance(f'child_request {sit} offered_groups={n_dh}', h_child_request, (sit, n_dh), native=nat(h_child_request),
+                                 must_reach=[('dh', lambda o: o == ['child_request', 'dh']), ('invalid_ke', lambda o: o == ['child_request', 'invalid_ke']),
+                                             ('no_proposal', lambda o: o == ['child_request', 'no_proposal'])]))
     for sit in ('init', 'child', 'rekey_child', 'rekey_ike'):
         inst.append(Instance(f'invalid_ke {sit}', h_invalid_ke, (sit,), native=nat(h_invalid_ke),
                              must_reach=[('retry', lambda o: o == ['invalid_ke', 'retry']), ('refused', lambda o: o == ['invalid_ke', 'refused'])]))
